@@ -1,4 +1,5 @@
 import GBProofs.OneElecProofs
+import GBProofs.EriBlock
 
 /-!
 # C04 — electron-repulsion integrals
@@ -42,5 +43,13 @@ theorem weights_ok (p q : K) (hp : p ≠ 0) (hpq : p + q ≠ 0) :
 `transpose (0, 2, 1, 3)`): as a statement about index functions -/
 theorem physicist_is_middle_swap {α : Type} (chem : ℕ → ℕ → ℕ → ℕ → α) (i j k l : ℕ) :
     (fun a b c d => chem a c b d) i j k l = chem i k j l := rfl
+
+/-- **Block-level theorem** (`EriBlock.lean`): the whole code path of
+`ElectronRepulsionIntegral.construct_array_contraction` — closed form for four s shells, otherwise vertical
+recursion, electron transfer, contraction over the four primitive indices, horizontal recursion `c → d`
+and `a → b`, component selection, angular norms, final axis order — computes the contracted Rys form
+`eriRys`, whose primitive factor is `E4` (the closure of the Wick/Rys form `Espec` of `[a0|c0]` under the
+two horizontal relations), for arbitrary angular momenta and any Boys table. -/
+alias block_is_contracted_rys_form := eriBlock_eq_rys
 
 end GB.C04
